@@ -61,12 +61,13 @@ UNIT = dict(
             note='constructor loops run over the 2*CAP slots')
        for t in ('empty', 'full', 'first_used', 'first_empty') for c, tiers in ((1, ['quick', 'thorough']), (2, ['quick', 'thorough']), (4, ['quick', 'thorough']), (8, ['thorough']))
   ] + [dict(id='%s_c%d_f%d' % (op, c, f), entry='h_' + op, defs={'CAP': c, 'Finalizable': f, 'G': 2 if f else 0, 'PopRetries': 1},
-            unwind=(5 if f else 3), unwindset=['build.0:%d' % (2 * c + 1), 'represents.0:%d' % (2 * c + 1), 'havoc_inputs.0:%d' % (c + 1), 'havoc_inputs.1:%d' % (2 * c + 1),
-                                                'abs_of_inputs.0:%d' % (c + 1), 'abs_dequeue.0:%d' % (c + 1), 'havoc_ring.0:%d' % (2 * c + 1)],
+            unwind=2 * c + 2,          # harness loops over the CAP values / 2*CAP slots
+            unwindset=['scq_enqueue.0:2', 'scq_enqueue.1:2', 'scq_catchup.0:2',
+                       'scq_dequeue.0:%d' % (3 if f else 2), 'scq_dequeue.1:2', 'scq_dequeue.2:%d' % (4 if f else 2)],
             tiers=tiers, cls='shape-complete' if not f else 'bounded', timeout=3000,
-            note='from ANY state of Inv_S (head position < 2^61, arbitrary older cycles and safe bits); retry loops complete within the unwinding (unwinding assertions)'
-                 + ('; finalized rings: at most G=2 burnt tail tickets' if f else ''))
-       for op in ('enq', 'deq') for f in (0, 1) for c, tiers in ((1, ['quick', 'thorough']), (2, ['quick', 'thorough']), (4, ['thorough']))
+            note='from ANY state of Inv_S (head position < 2^61, arbitrary older cycles and safe bits); the retry loops are complete within the unwinding (unwinding assertions): '
+                 'CAS-retry and do-while 1 iteration, for(;;) 1 iteration' + (' + one per burnt ticket; finalized rings: at most G=2 burnt tail tickets' if f else ''))
+       for op in ('enq', 'deq') for f in (0, 1) for c, tiers in ((1, ['quick', 'thorough']), (2, ['quick', 'thorough']), (4, ['thorough']), (8, ['thorough']))
   ] + [
     dict(id='finalize', entry='h_finalize', defs={'CAP': 2, 'Finalizable': 1, 'G': 2}, unwind=6, cls='shape-complete'),
     dict(id='catchup_f0', entry='h_catchup', defs={'CAP': 2, 'Finalizable': 0}, unwind=6, cls='unbounded'),
@@ -84,6 +85,7 @@ UNIT = dict(
     'scq.finalize.sets': dict(deciding=True, text='finalize sets the finalized bit and nothing else; set_threshold(3cap-1) keeps Inv_S'),
     'scq.catchup.restores': dict(deciding=True, text='catchup(tail, head) with tail behind head moves the tail position to the head position and writes nothing else'),
   },
+  replays={k: dict(src='replay_scq.cpp') for k in ('scq.enqueue.appends', 'scq.dequeue.takes_first', 'scq.dequeue.empty_iff', 'scq.inv.preserved', 'scq.finalized.stable')},
   canaries=['remap.rotating', 'remap.identity', 'remap.max', 'init.empty', 'init.full', 'init.first_used', 'init.first_empty',
             'enq.appended', 'enq.last_free', 'enq.finalized', 'deq.took', 'deq.took_last', 'deq.empty_threshold', 'deq.empty_catchup', 'deq.empty_gap',
             'finalize.fresh', 'catchup.finalized', 'catchup.plain'],
